@@ -17,18 +17,39 @@ INF = float('inf')
 class Iv:
     """closed interval; tlo / thi: that end point is attained by some input (see module doc);
     free: an unconstrained input (parameter) whose ends become attained when a constant guard fences it."""
-    __slots__ = ('lo', 'hi', 'tlo', 'thi', 'free', 'isint', 'rel', 'srcs')
+    __slots__ = ('lo', 'hi', 'tlo', 'thi', 'free', 'isint', 'rel', 'srcs', 'nan', 'inf', 'ub', 'ubat')
 
-    def __init__(self, lo, hi, tlo=False, thi=False, free=False, isint=False, rel=False, srcs=frozenset()):
+    def __init__(self, lo, hi, tlo=False, thi=False, free=False, isint=False, rel=False, srcs=frozenset(),
+                 nan=False, ub=False, inf=False):
         self.lo, self.hi, self.tlo, self.thi, self.free, self.isint = lo, hi, tlo, thi, free, isint
         self.rel = rel      # computed from two correlated non-constant operands: may be arbitrarily loose
         self.srcs = srcs    # input variables the value depends on
+        self.nan = nan      # floating value that may be NaN (the interval describes the non-NaN values)
+        self.inf = inf      # floating value that may be +-infinity (an unbounded interval alone only means "unknown")
+        self.ub = ub        # integer obtained by converting a value that may be NaN / infinite: any value at all
+        self.ubat = None
+
+    def fl(self, *ops):
+        """inherit the NaN / undefined-conversion flags of the operands."""
+        for o in ops:
+            if o.nan:
+                self.nan = True
+            if o.inf:
+                self.inf = True
+            if o.ub:
+                self.ub = True
+                self.ubat = self.ubat or o.ubat
+        return self
+
+    @property
+    def nonfinite(self):
+        return self.nan or self.inf
 
     def __repr__(self):
         return '%s%s, %s%s' % ('[' if self.tlo else '(', self.lo, self.hi, ']' if self.thi else ')')
 
     def key(self):
-        return (self.lo, self.hi, self.tlo, self.thi, self.free, self.rel)
+        return (self.lo, self.hi, self.tlo, self.thi, self.free, self.rel, self.nan, self.inf, self.ub)
 
     def __eq__(self, o):
         return isinstance(o, Iv) and self.key() == o.key()
@@ -70,7 +91,7 @@ def hull(a, b):
         hi, thi = b.hi, b.thi
     else:
         hi, thi = a.hi, a.thi or b.thi
-    return Iv(lo, hi, tlo, thi, a.free and b.free, a.isint and b.isint, a.rel or b.rel, a.srcs | b.srcs)
+    return Iv(lo, hi, tlo, thi, a.free and b.free, a.isint and b.isint, a.rel or b.rel, a.srcs | b.srcs).fl(a, b)
 
 
 def _mono(a, f, isint=None, dec=False):
@@ -79,25 +100,25 @@ def _mono(a, f, isint=None, dec=False):
         lo = f(a.lo) if math.isfinite(a.lo) else (a.lo if not dec else -a.lo)
         hi = f(a.hi) if math.isfinite(a.hi) else (a.hi if not dec else -a.hi)
     except (OverflowError, ValueError):
-        return TOP()
+        return TOP().fl(a)
     ii = a.isint if isint is None else isint
     if dec:
-        return Iv(hi, lo, a.thi, a.tlo, False, ii, a.rel, a.srcs)
-    return Iv(lo, hi, a.tlo, a.thi, False, ii, a.rel, a.srcs)
+        return Iv(hi, lo, a.thi, a.tlo, False, ii, a.rel, a.srcs).fl(a)
+    return Iv(lo, hi, a.tlo, a.thi, False, ii, a.rel, a.srcs).fl(a)
 
 
 def add(a, b):
     if b.const:
-        return _mono(a, lambda x: x + b.lo, a.isint and b.isint)
+        return _mono(a, lambda x: x + b.lo, a.isint and b.isint).fl(b)
     if a.const:
-        return _mono(b, lambda x: x + a.lo, a.isint and b.isint)
+        return _mono(b, lambda x: x + a.lo, a.isint and b.isint).fl(a)
     ind = not (a.srcs & b.srcs) and not a.rel and not b.rel and a.srcs and b.srcs
     return Iv(a.lo + b.lo, a.hi + b.hi, bool(ind and a.tlo and b.tlo), bool(ind and a.thi and b.thi), False,
-              a.isint and b.isint, not ind, a.srcs | b.srcs)
+              a.isint and b.isint, not ind, a.srcs | b.srcs).fl(a, b)
 
 
 def neg(a):
-    return Iv(-a.hi, -a.lo, a.thi, a.tlo, False, a.isint, a.rel, a.srcs)
+    return Iv(-a.hi, -a.lo, a.thi, a.tlo, False, a.isint, a.rel, a.srcs).fl(a)
 
 
 def sub(a, b):
@@ -204,9 +225,13 @@ def _fabs(a):
 
 RANGE_SUMMARY = {
     # documented, attained ranges of library functions (A-RANGE: read from Math.hpp documentation)
+    # AngNormalize(x) = remainder(x, 360): NaN for NaN and for +-inf
     'GeographicLib::Math::AngNormalize': lambda args: Iv(-180.0, 180.0, True, True, False, False, False,
-                                                         args[0].srcs if args else frozenset()),
-    'GeographicLib::Math::LatFix': lambda args: Iv(-90.0, 90.0, False, False),
+                                                         args[0].srcs if args else frozenset(),
+                                                         nan=bool(args and args[0].nonfinite), inf=False),
+    # LatFix(x) = |x| > 90 ? NaN : x
+    'GeographicLib::Math::LatFix': lambda args: Iv(-90.0, 90.0, False, False,
+                                                   nan=bool(not args or args[0].nan or args[0].lo < -90 or args[0].hi > 90)),
 }
 
 
@@ -220,6 +245,7 @@ class Intervals:
         self.env_in = {}
         self.exit_env = None
         self._sum = {}
+        self.ub_sites = {}
         self.solve()
 
     # -------------------------------------------------------------- evaluation
@@ -253,15 +279,21 @@ class Intervals:
             v = self.ev(n['ch'][0], env) if n['ch'] else TOP()
             ck = n.get('ck')
             if ck == 'FloatingToIntegral':
+                if (v.nan or v.inf) and not v.isint:
+                    # converting NaN or an infinity to an integer type is undefined: any value may result
+                    r = Iv(-INF, INF, True, True, False, True, False, v.srcs, False, True)
+                    r.ubat = fn.loc(nid)
+                    self.ub_sites.setdefault(nid, v)
+                    return r
                 r = _mono(v, lambda x: float(math.trunc(x)), True)
                 if 'unsigned' in n.get('t', '') and r.lo < 0:
-                    return Iv(0, INF, False, False, False, True, True)
+                    return Iv(0, INF, False, False, False, True, True).fl(v)
                 return r
             if ck == 'IntegralToFloating':
-                return Iv(v.lo, v.hi, v.tlo, v.thi, False, False, v.rel, v.srcs)
+                return Iv(v.lo, v.hi, v.tlo, v.thi, False, False, v.rel, v.srcs).fl(v)
             if ck == 'IntegralCast':
                 if 'unsigned' in n.get('t', '') and v.lo < 0:
-                    return Iv(0, INF, False, False, False, True, True)
+                    return Iv(0, INF, False, False, False, True, True).fl(v)
                 return v
             return v
         if k == 'DeclRefExpr':
@@ -306,6 +338,12 @@ class Intervals:
         return TOP()
 
     def arith(self, op, a, b, isint):
+        r = self._arith(op, a, b, isint)
+        if r is a or r is b:
+            r = Iv(r.lo, r.hi, r.tlo, r.thi, r.free, r.isint, r.rel, r.srcs, r.nan, r.ub)
+        return r.fl(a, b)
+
+    def _arith(self, op, a, b, isint):
         if op == '+':
             return add(a, b)
         if op == '-':
@@ -331,6 +369,17 @@ class Intervals:
         args = n.get('args', [])
         off = 1 if (n.get('ckind') == 'operator' and ce.get('method')) else 0
         vals = [self.ev(a, env) for a in args[off:]]
+        r = self._call(n, env, ce, nm, q, vals)
+        if nm in ('floor', 'ceil', 'fabs', 'abs', 'min', 'fmin', 'max', 'fmax', 'pow', 'ldexp', 'fmod', 'remainder', 'sqrt',
+                  'trunc', 'round') and not ce.get('inrepo'):
+            if any(v is r for v in vals):
+                r = Iv(r.lo, r.hi, r.tlo, r.thi, r.free, r.isint, r.rel, r.srcs, r.nan, r.ub)
+            r.fl(*vals)
+            if nm in ('fmod', 'remainder') and vals and not vals[0].finite:
+                r.nan = True
+        return r
+
+    def _call(self, n, env, ce, nm, q, vals):
         if q in RANGE_SUMMARY:
             return RANGE_SUMMARY[q](vals)
         if ce.get('inrepo'):
@@ -380,14 +429,14 @@ class Intervals:
                 isint = self.is_int_t(d['t'])
                 if d.get('init', -1) >= 0:
                     v = self.ev(d['init'], env)
-                    env[d['d']] = Iv(v.lo, v.hi, v.tlo, v.thi, False, isint, v.rel, v.srcs)
+                    env[d['d']] = Iv(v.lo, v.hi, v.tlo, v.thi, False, isint, v.rel, v.srcs).fl(v)
                 elif not d.get('static_local'):
                     env[d['d']] = TOP(isint)
         elif k in ('BinaryOperator', 'CompoundAssignOperator') and n.get('op') in ASSIGN_OPS:
             key = self.key(n['ch'][0])
             v = self.ev(e, env)
             if key is not None:
-                env[key] = Iv(v.lo, v.hi, v.tlo, v.thi, False, env.get(key, TOP()).isint or v.isint, v.rel, v.srcs)
+                env[key] = Iv(v.lo, v.hi, v.tlo, v.thi, False, env.get(key, TOP()).isint or v.isint, v.rel, v.srcs).fl(v)
         elif k == 'UnaryOperator' and n.get('op') in ('++', '--'):
             key = self.key(n['ch'][0])
             if key is not None:
@@ -429,7 +478,8 @@ class Intervals:
                         lo, hi = max(cur.lo, pv.lo), min(cur.hi, pv.hi)
                         if lo <= hi:
                             env[k] = Iv(lo, hi, pv.tlo if lo == pv.lo else cur.tlo, pv.thi if hi == pv.hi else cur.thi,
-                                        False, cur.isint, cur.rel, cur.srcs)
+                                        False, cur.isint, cur.rel, cur.srcs, nan=cur.nan and pv.nan, ub=cur.ub,
+                                        inf=cur.inf and pv.inf and not (math.isfinite(lo) and math.isfinite(hi)))
                     continue
             if kind in ('r', 'p'):
                 env[k] = TOP(env.get(k, TOP()).isint)
@@ -495,9 +545,27 @@ class Intervals:
                 b = None if b0 is None else self.refine(n['ch'][1], truth, b0)
                 return self.join_env(a, b)
             if op in ('<', '>', '<=', '>=', '==', '!='):
+                # an ordered comparison (or ==) that holds excludes NaN operands; one that fails does not
+                clears = (truth and op != '!=') or (not truth and op == '!=')
                 if not truth:
                     op = {'<': '>=', '>': '<=', '<=': '>', '>=': '<', '==': '!=', '!=': '=='}[op]
-                return self.refine_cmp(n['ch'][0], op, n['ch'][1], env)
+                return self.refine_cmp(n['ch'][0], op, n['ch'][1], env, clears)
+        if k == 'CallExpr':
+            ce = n.get('callee') or {}
+            nm = ce.get('name')
+            if nm in ('isnan', 'isfinite', 'isinf') and not ce.get('inrepo') and n.get('args'):
+                key = self.key(n['args'][0])
+                if key is not None:
+                    cur = env.get(key, TOP())
+                    env = dict(env)
+                    if nm == 'isnan':
+                        env[key] = Iv(cur.lo, cur.hi, cur.tlo, cur.thi, cur.free, cur.isint, cur.rel, cur.srcs,
+                                      nan=bool(truth), ub=cur.ub, inf=cur.inf and not truth)
+                    elif nm == 'isfinite' and truth:
+                        big = 1.7976931348623157e308
+                        env[key] = Iv(max(cur.lo, -big), min(cur.hi, big), cur.tlo, cur.thi, cur.free, cur.isint,
+                                      cur.rel, cur.srcs, nan=False, ub=cur.ub, inf=False)
+                return env
         return env
 
     def join_env(self, a, b):
@@ -507,7 +575,7 @@ class Intervals:
             return a
         return {k: hull(a[k], b[k]) for k in set(a) & set(b)}
 
-    def refine_cmp(self, l, op, r, env):
+    def refine_cmp(self, l, op, r, env, clears_nan=False):
         fn = self.fn
         env = dict(env)
         flip = {'<': '>', '>': '<', '<=': '>=', '>=': '<=', '==': '==', '!=': '!='}
@@ -581,7 +649,9 @@ class Intervals:
                     lo = lo + 1 if isint else nextup(lo)
             if lo > hi:
                 return None
-            env[key] = Iv(lo, hi, tlo, thi, cur.free, isint, cur.rel, cur.srcs)
+            env[key] = Iv(lo, hi, tlo, thi, cur.free, isint, cur.rel, cur.srcs,
+                          nan=(False if clears_nan else cur.nan), ub=cur.ub,
+                          inf=cur.inf and not (math.isfinite(lo) and math.isfinite(hi)))
         return env
 
     # -------------------------------------------------------------- fixpoint
@@ -596,6 +666,7 @@ class Intervals:
                 if iv is None:
                     iv = TOP(self.is_int_t(p['t']), free=True)
                     iv.srcs = frozenset([p['d']])
+                    iv.nan = iv.inf = not self.is_int_t(p['t'])      # a floating argument may be NaN or +-inf
                 else:
                     iv = Iv(iv.lo, iv.hi, iv.tlo, iv.thi, iv.free or (not iv.finite and not iv.rel), iv.isint, iv.rel,
                             iv.srcs or frozenset([p['d']]))
